@@ -80,6 +80,47 @@ macro_rules! groups {
             g.runb("boxed.op_add_vv", || Some(ba.clone() + bb.clone()));
             g.runb("boxed.op_add_assign", || { let mut t = ba.clone(); t += &bb; Some(t) });
             g.emit(cx, "padd", bits, &f2, &[("pexp", bits as i64)]);
+            // ---- the same additions/subtractions with a NARROWER right-hand side (one limb): every route must treat it as zero-extended
+            if N >= 2 {
+                let nv = match it % 4 { 0 => vec![1u64], 1 => vec![u64::MAX], _ => vec![bv[0]] };
+                let av2 = if it % 3 == 0 { let mut v = av.clone(); v[0] = u64::MAX; if it % 6 == 0 { for x in v.iter_mut().take(N - 1) { *x = u64::MAX; } } v } else { av.clone() };
+                let (a2, ba2) = (u::<N>(&av2), bx(&av2));
+                let (bn, bnu, bnp) = (bx(&nv), u::<1>(&nv), nv[0]);
+                let wide_b = u::<N>(&nv);
+                let fm: [(&str, &[u64]); 2] = [("a", &av2), ("b", &nv)];
+                let mut g = Grp::new();
+                g.run("uint.wrapping_add", || Some(w(&a2.wrapping_add(&wide_b))));
+                g.runb("boxed.wrapping_add(narrow)", || Some(ba2.wrapping_add(&bn)));
+                g.runb("boxed.adc(narrow)", || Some(ba2.adc(&bn, Limb::ZERO).0));
+                g.runb("boxed.adc_assign(narrow)", || { let mut t = ba2.clone(); t.adc_assign(&bn, Limb::ZERO); Some(t) });
+                g.runb("boxed.adc_assign(limbs)", || { let mut t = ba2.clone(); t.adc_assign(bnu.as_limbs(), Limb::ZERO); Some(t) });
+                g.runb("boxed.WrappingAdd(narrow)", || Some(WrappingAdd::wrapping_add(&ba2, &bn)));
+                g.runb("boxed.Wrapping.add_assign(narrow)", || { let mut t = Wrapping(ba2.clone()); t += &Wrapping(bn.clone()); Some(t.0) });
+                g.runb("boxed.Wrapping.add(narrow)", || Some((Wrapping(ba2.clone()) + Wrapping(bn.clone())).0));
+                g.emit(cx, "wadd", bits, &fm, &[("pexp", bits as i64)]);
+                let mut g = Grp::new();
+                g.run("uint.op_add_vv", || Some(w(&(a2 + wide_b))));
+                g.runb("boxed.op_add_rr(narrow)", || Some(&ba2 + &bn));
+                g.runb("boxed.op_add_assign(narrow)", || { let mut t = ba2.clone(); t += &bn; Some(t) });
+                g.runb("boxed.op_add_uint(narrow)", || Some(ba2.clone() + bnu));
+                g.runb("boxed.op_add_assign_uint(narrow)", || { let mut t = ba2.clone(); t += &bnu; Some(t) });
+                g.runb("boxed.op_add_u64", || Some(ba2.clone() + bnp));
+                g.runb("boxed.op_add_assign_u64", || { let mut t = ba2.clone(); t += bnp; Some(t) });
+                g.emit(cx, "padd", bits, &fm, &[("pexp", bits as i64)]);
+                let mut g = Grp::new();
+                g.run("uint.checked_add", || o(a2.checked_add(&wide_b)));
+                g.runb("boxed.checked_add(narrow)", || ob(ba2.checked_add(&bn)));
+                g.emit(cx, "cadd", bits, &fm, &[("pexp", bits as i64)]);
+                let mut g = Grp::new();
+                g.run("uint.wrapping_sub", || Some(w(&a.wrapping_sub(&wide_b))));
+                g.runb("boxed.wrapping_sub(narrow)", || Some(ba.wrapping_sub(&bn)));
+                g.runb("boxed.sbb(narrow)", || Some(ba.sbb(&bn, Limb::ZERO).0));
+                g.runb("boxed.sbb_assign(narrow)", || { let mut t = ba.clone(); t.sbb_assign(&bn, Limb::ZERO); Some(t) });
+                g.runb("boxed.WrappingSub(narrow)", || Some(WrappingSub::wrapping_sub(&ba, &bn)));
+                g.runb("boxed.Wrapping.sub_assign(narrow)", || { let mut t = Wrapping(ba.clone()); t -= &Wrapping(bn.clone()); Some(t.0) });
+                let fs: [(&str, &[u64]); 2] = [("a", &av), ("b", &nv)];
+                g.emit(cx, "wsub", bits, &fs, &[("pexp", bits as i64)]);
+            }
             // ---- wrapping sub
             let mut g = Grp::new();
             g.run("uint.wrapping_sub", || Some(w(&a.wrapping_sub(&b))));
